@@ -36,11 +36,13 @@ def storage_of(S):
     for c in ir.kids(S.cls):
         if c.get("kind") == "FieldDecl" and c.get("name") == "m_storage":
             q = ir.qtype(c)
+            dq = ((c.get("type") or {}).get("desugaredQualType") or q).replace(" ", "")
             for n in d.walk():
                 if n.get("kind") == "ClassTemplateSpecializationDecl" and n.get("name") in ("fixed_small_string_storage_impl", "fixed_string_storage_impl", "fixed_string_external_storage_impl") \
                         and len(ir.kids(n)) > 4:
                     ta = " ".join(ir.template_args(n))
-                    if q.replace(" ", "").endswith(("<" + ta + ">").replace(" ", "")):
+                    if q.replace(" ", "").endswith(("<" + ta + ">").replace(" ", "")) and (n.get("name") in dq or not any(
+                            k_ in dq for k_ in ("fixed_small_string_storage_impl", "fixed_string_storage_impl", "fixed_string_external_storage_impl"))):
                         return n
     return None
 
@@ -159,7 +161,9 @@ def rule_enc(rep, S, cap):
                 rep.violates(R, lab, "set_size writes the terminator", where=d.where(fns["set_size"]), scenario="sz=%d" % bad[0], detail="stores %s, expected a single NUL at index sz" % (bad[1],))
             else:
                 rep.holds(R, lab, "set_size writes the terminator", where=d.where(fns["set_size"]), detail="NUL at sz for sz in 0..%d" % cap)
-            (rep.holds if ok_size else rep.violates)(R, lab, "size() is the distance to the first NUL", where=d.where(fns["size"]), **({} if ok_size else {"detail": "returns `%s`" % ir.show(szt)}))
+            # strlen / traits::length of the buffer is the recognised form; a hand-written scan is not evaluated here: not recognised is not wrong
+            (rep.holds if ok_size else rep.inconclusive)(R, lab, "size() is the distance to the first NUL", where=d.where(fns["size"]),
+                                                          **({} if ok_size else {"detail": "returns `%s`: a hand-written scan of the buffer is not evaluated" % ir.show(szt)}))
             # adjust_size(val) writes NUL at size()+val
             at = [ir.sx(n) for n in ir.walk_expr(fns["adjust_size"]) if n.get("kind") == "BinaryOperator" and n.get("opcode") == "="]
             pv = ir.params(fns["adjust_size"])[0].get("name")
